@@ -13,6 +13,10 @@ namespace
         static constexpr bool port = true;
         template <class T, size_t N> using vec = igris::static_vector<T, N>;
         template <size_t N> using str = igris::static_string<N>;
+        template <size_t N> static int stoi_(const igris::static_string<N> &s) { return igris::stoi(s); }
+        template <size_t N> static long stol_(const igris::static_string<N> &s) { return igris::stol(s); }
+        template <size_t N> static long long stoll_(const igris::static_string<N> &s) { return igris::stoll(s); }
+        template <size_t N> static double stod_(const igris::static_string<N> &s) { return igris::stod(s); }
     };
 }
 #define C14_TWIN TwinP
